@@ -35,20 +35,20 @@ Step(a) == hist' = Append(hist, a)
 Register(c) == /\ c \notin registered /\ c \notin InCtx
                /\ registered' = registered \cup {c}
                /\ active' = active \cup {c}
-               /\ Step([op |-> "register", cbs |-> {c}, fail |-> FALSE, active |-> Active \cup {c}])
+               /\ Step([op |-> "register", cbs |-> {c}, fail |-> FALSE, active |-> Active \cup {c}, pos |-> 0])
                /\ UNCHANGED <<ctx, lastExitOuter>>
 
 Unregister(c) == /\ c \in registered /\ c \notin InCtx
                  /\ registered' = registered \ {c}
                  /\ active' = active \ {c}
-                 /\ Step([op |-> "unregister", cbs |-> {c}, fail |-> FALSE, active |-> Active \ {c}])
+                 /\ Step([op |-> "unregister", cbs |-> {c}, fail |-> FALSE, active |-> Active \ {c}, pos |-> 0])
                  /\ UNCHANGED <<ctx, lastExitOuter>>
 
 \* `with add_callbacks(*cs):` / `with cb:` - the same object may be entered again
 Enter(cs) == /\ Len(ctx) < MaxDepth
              /\ ctx' = Append(ctx, [cbs |-> cs, added |-> cs \ active])
              /\ active' = active \cup cs
-             /\ Step([op |-> "enter", cbs |-> cs, fail |-> FALSE, active |-> Active \cup cs])
+             /\ Step([op |-> "enter", cbs |-> cs, fail |-> FALSE, active |-> Active \cup cs, pos |-> 0])
              /\ UNCHANGED <<registered, lastExitOuter>>
 
 Exit == /\ ctx # <<>>
@@ -58,26 +58,41 @@ Exit == /\ ctx # <<>>
            IN /\ ctx' = rest
               /\ active' = IF Impl = "discard" THEN active \ top.cbs ELSE active \ top.added
               /\ lastExitOuter' = outer
-              /\ Step([op |-> "exit", cbs |-> top.cbs, fail |-> FALSE, active |-> outer])
+              /\ Step([op |-> "exit", cbs |-> top.cbs, fail |-> FALSE, active |-> outer, pos |-> 0])
         /\ UNCHANGED registered
+
+\* Leaving a context that is NOT the innermost one (two objects used from different places, or
+\* from two threads).  Generated only where the meaning is unambiguous: the context shares no
+\* callback with any other live context nor with `registered`.
+ExitAt(i) == /\ i \in 1..(Len(ctx) - 1)
+             /\ LET c     == ctx[i]
+                    rest  == [j \in 1..(Len(ctx) - 1) |-> IF j < i THEN ctx[j] ELSE ctx[j + 1]]
+                    other == registered \cup UNION {rest[j].cbs : j \in DOMAIN rest}
+                IN /\ c.cbs \cap other = {}
+                   /\ ctx' = rest
+                   /\ active' = IF Impl = "discard" THEN active \ c.cbs ELSE active \ c.added
+                   /\ lastExitOuter' = other
+                   /\ Step([op |-> "exitat", cbs |-> c.cbs, fail |-> FALSE, active |-> other, pos |-> i])
+             /\ UNCHANGED registered
 
 \* a scheduler call: the callbacks that fire are the active ones; the global set is swapped away
 \* for the duration of the call (a scheduler started from inside a task sees none) and restored
 \* afterwards, also when the call fails
-Run(f) == /\ Step([op |-> "run", cbs |-> Active, fail |-> f, active |-> Active])
+Run(f) == /\ Step([op |-> "run", cbs |-> Active, fail |-> f, active |-> Active, pos |-> 0])
           /\ UNCHANGED <<registered, ctx, active, lastExitOuter>>
 
 Next == /\ Len(hist) < MaxLen
         /\ \/ \E c \in CBs : Register(c) \/ Unregister(c)
            \/ \E cs \in (SUBSET CBs) \ {{}} : Enter(cs)
            \/ Exit
+           \/ \E i \in 1..Len(ctx) : ExitAt(i)
            \/ \E f \in BOOLEAN : Run(f)
 
 Spec == Init /\ [][Next]_vars
 
 \* C05, scoping clause
 ActiveMatches  == active = Active
-ExitKeepsOuter == (hist # <<>> /\ hist[Len(hist)].op = "exit") => lastExitOuter \subseteq active
+ExitKeepsOuter == (hist # <<>> /\ hist[Len(hist)].op \in {"exit", "exitat"}) => lastExitOuter \subseteq active
 
 -----------------------------------------------------------------------------
 (* The firing protocol of one run, as a predicate on what one callback object
